@@ -1520,7 +1520,10 @@ def run(tier):
     import c19x
     chk = Check('C19', tier)
     rng = chk.rng
-    broken = chk.prove(['SarpyModel.Props.C19All', 'SarpyModel.Drivers'], 'SarpyModel.Props.C19All', 'Sarpy.Props.C19', REQUIRED)
+    import seg_hist
+    segstate_info = seg_hist.regen()       # Gen/SegState.lean: the accounting sites and field writes of data_segment.py
+    broken = chk.prove(['SarpyModel.Props.C19All', 'SarpyModel.Drivers'] + seg_hist.targets_writes(), 'SarpyModel.Props.C19All', 'Sarpy.Props.C19', REQUIRED,
+                       extra=seg_hist.extra_writes())
     gen_info, bridge_broken = bridge_obligations(chk)
     chk.coverage['translator'] = gen_info
     broken += bridge_broken
@@ -1670,11 +1673,22 @@ def run(tier):
         gc.collect()
         sys.unraisablehook = old_hook
 
+    # ---- written-sample accounting of the segment objects under write AND write_raw (harness/seg_hist.py), SICDWriter write_raw histories
+    sh = seg_hist.run_writes(chk, tier, consumers=True)
+    for f in sh['fails']:
+        c = {k: v for k, v in f.items() if k not in ('msg', 'key', 'step')}
+        c.setdefault('ops', c.get('chunks', []))
+        c['machine'] = 'H'
+        fails.append({'key': f.get('key', ''), 'msg': f['msg'], 'step': f.get('step'), 'fields': [], 'case': c, 'hist_keys': []})
+    disagreements += [{'case': {'machine': 'H', 'tree': d['tree'], 'ops': d['ops']}, 'msg': f"{d['tie']}: model {d['model']} / implementation {d['impl']}",
+                       'model': d['model'], 'impl': d['impl']} for d in sh['disagreements']]
+    broken += sh['broken']
+
     by_key = {}
     for f in fails:
         by_key.setdefault(f['key'], []).append(f)
     chk.coverage.update({
-        'evaluations': len(cases) + conv_cases,
+        'evaluations': len(cases) + conv_cases + sh['evaluations'],
         'converter_existence_cases': conv_cases,
         'distinct_nontrivial': len(classes),
         'rule': 'random op histories (length <= 12; read / write-chunk / flush / close / context exit with and without '
@@ -1710,6 +1724,8 @@ def run(tier):
         'histories_with_keyed_finding_masked_fields': masked_histories,
         'exceptions_raised_inside_finalisers': {k: unraisable.count(k) for k in sorted(set(unraisable))},
         'failing_inputs': len(fails),
+        'write_accounting': sh['stats'],
+        'segstate_translator': segstate_info,
         'failing_inputs_by_key': {k or '(unclassified)': len(v) for k, v in by_key.items()},
     })
     chk.assumptions += [
@@ -1782,6 +1798,9 @@ def replay(path):
     if case is None:
         print(json.dumps(rec, indent=1)[:3000])
         return 1
+    if str(case.get('kind', '')).startswith('seghist'):
+        import seg_hist
+        return seg_hist.replay_case(case)
     print('case:', json.dumps(case))
     if case['machine'] != 'S':
         print('model request:', case_line(case))
